@@ -4,7 +4,9 @@ from __future__ import annotations
 import bisect
 
 from .. import envstream as es
-from ..core import us
+from fractions import Fraction
+
+from ..core import F, fr, us
 from ..runner import Prop
 
 
@@ -76,8 +78,9 @@ class C04(Prop):
             "exactly. Non-trivial = latency > 0 with history replayed, or a date change on a one-event batch, or "
             "duplicated/unsorted grid input, or an event exactly at the latency bound, or markov/warm-up set, or a "
             "second episode on the same environment; distinct = distinct cases")
-    rule = rule + es.CONTEXT_RULE
-    nontrivial_tags = {"latency-history", "one-event-date-change", "messy-grid", "at-bound", "markov", "warmup",
+    rule = (rule + "; 4% of the cases hand the data over as a price frame (TradingEnv(prices=...)) spanning more than two years "
+            "of rows 20-30 days apart with a configured episode length and a start near the end: everything earlier is replayed" + es.CONTEXT_RULE)
+    nontrivial_tags = {"prices-route", "latency-history", "one-event-date-change", "messy-grid", "at-bound", "markov", "warmup",
                        "second-episode"}
     assumptions = [
         "latency and event offsets are whole microseconds; the implementation compares timedelta.total_seconds() "
@@ -91,7 +94,31 @@ class C04(Prop):
         # thorough tier: every placement of two extra events around a three-point grid (see small_scope_episodes)
         return es.small_scope_episodes() if tier == "thorough" else []
 
+    def gen_prices_route(self, rng):
+        """The convenience route `TradingEnv(prices=frame)`: no Transmitter is built by the caller, hence no warm-up
+        horizon and no markov reset can have been set - every event of the earlier timesteps is replayed at reset,
+        however long ago. More than a year of daily prices, a configured episode length, a start near the end."""
+        # (a sparse grid keeps the model run short: what matters is the *span* of more than a year before the start)
+        n = rng.randint(26, 34)
+        gap = rng.choice([20, 25, 30])
+        grid = [es.T0 + i * gap * es.DAY for i in range(n)]
+        px, events = Fraction(rng.randint(50, 200)), []
+        for t in grid:
+            px = px * Fraction(rng.randint(990, 1011), 1000)
+            p = fr(F(float(px)))
+            events.append(["q", "S0", t, p, p])
+        eplen = rng.randint(2, 4)
+        start = rng.randint(n - eplen - 6, n - eplen - 2)
+        case = dict(contracts=[dict(key="S0", kind="ETF")], fees=["0", "0", "0"], deposit="10000", grid=grid, events=events,
+                    latency=0, delay=0, markov=False, warmup=None, reward="simple", pre_env_latency=None, sibling=False,
+                    via_prices=True, eplen=eplen,
+                    space=dict(kind="box", low="0", high="1", keys=["S0"], asWeights=1, fractional=1, margin="0"))
+        case["ops"] = [["reset", None, start]] + [["step", [fr(Fraction(rng.randint(0, 8), 8))]] for _ in range(eplen + 1)]
+        return case
+
     def gen(self, rng, tier):
+        if rng.random() < 0.04:
+            return self.gen_prices_route(rng)
         case, grid, keys = es.gen_episode(rng, tier)
         if rng.random() < 0.25:
             case["eplen"] = rng.randint(1, max(1, len(grid) - 1))
